@@ -150,11 +150,11 @@ impl<'a> G14<'a> {
             format!("(define p3 (vector {} {} {}))", s[7], s[8], s[9]),
             "(define p4 (vector))".to_string(),
             format!("(define p5 (vector (list {} {}) (vector {}) p0))", s[10], s[11], s[0]),
-            "(define p6 (list (cons 'a 1) (cons 'b (list 2 3)) (cons 1 'one) (cons (list 'k) 'listkey)))".to_string(),
+            "(define p6 (list (cons 'a 1) (cons 'b (list 2 3)) (cons 1 'one) (cons (list 'k) 'listkey) (cons (vector 'vk 1) 'veckey) (cons (vector) 'emptyvec) (cons \"skey\" (vector 'in 'cdr))))".to_string(),
             match self.rng.below(4) {
                 0 => "(define p7 '())".to_string(),
                 1 => format!("(define p7 {})", s[2]),
-                2 => "(define p7 (list (list 1 2) (list 1 2) p3))".to_string(),
+                2 => "(define p7 (list (list 1 2) (vector 1 2) (vector) \"str\" (vector (list 1) 2) (list (vector 1 2)) p3))".to_string(),
                 _ => "(define p7 (list 'only))".to_string(),
             },
         ];
@@ -328,13 +328,22 @@ impl<'a> G14<'a> {
             }),
             9 | 10 => self.pick(&cands, is_listy).map(|c| c.expr.clone()).map(|e| {
                 let proc = *self.rng.pick(&["memq", "memv", "member"]);
-                let key = if proc == "member" && self.rng.chance(1, 3) { "(list 1 2)".to_string() } else { self.rng.pick_str(&KEYS).to_string() };
+                let key = if proc == "member" && self.rng.chance(1, 2) {
+                    // keys that equal? compares by content: fresh lists, vectors (empty, flat, nested) and strings
+                    self.rng.pick_str(&["(list 1 2)", "(vector 1 2)", "(vector)", "(vector (list 1) 2)", "\"str\"", "(list (vector 1 2))"]).to_string()
+                } else {
+                    self.rng.pick_str(&KEYS).to_string()
+                };
                 (format!("(define {} ({} {} {}))", self.target(), proc, key, e), "mem*")
             }),
             11 => {
                 // association lists: p6 and lists of pairs
                 let proc = *self.rng.pick(&["assq", "assv", "assoc"]);
-                let key = if proc == "assoc" && self.rng.chance(1, 3) { "(list 'k)".to_string() } else { self.rng.pick_str(&KEYS).to_string() };
+                let key = if proc == "assoc" && self.rng.chance(1, 2) {
+                    self.rng.pick_str(&["(list 'k)", "(vector 'vk 1)", "(vector)", "\"skey\""]).to_string()
+                } else {
+                    self.rng.pick_str(&KEYS).to_string()
+                };
                 Some((format!("(define {} ({} {} p6))", self.target(), proc, key), "ass*"))
             }
             12 => self.pick(&cands, is_listy).map(|c| c.expr.clone()).map(|e| {
@@ -477,7 +486,14 @@ impl<'a> G14<'a> {
     fn marker_probe(&mut self) {
         let cands = self.candidates();
         self.marker += 1;
-        let m = format!("'m{}", self.marker);
+        // the stored value is unique in the run: a symbol, a number, or a structure allocated by
+        // this very operation (which is then reachable through the mutated object only)
+        let m = match self.rng.below(5) {
+            0 | 1 => format!("'m{}", self.marker),
+            2 => format!("{}", 900_000 + self.marker),
+            3 => format!("(list 'm{} {})", self.marker, self.marker),
+            _ => format!("(vector 'm{} (list {}))", self.marker, self.marker),
+        };
         let is_pair = |s: &Shape| matches!(s, Shape::List(n) | Shape::Improper(n) if *n > 0);
         let is_vec = |s: &Shape| matches!(s, Shape::Vector(n) if *n > 0);
         let text = match self.rng.below(3) {
